@@ -1,4 +1,4 @@
-CONSTANTS N = 4 Keys = {0,1,2,3,4,5,6,7} MaxOps = 6 ClearValues = TRUE
+CONSTANTS N = 4 Keys = {0,1,2,3,4,5,6,7} MaxOps = 6 ClearValues = TRUE HitBits = 64
 INIT Init
 NEXT Next
 INVARIANT Transparent
